@@ -31,11 +31,12 @@ type MemStore struct {
 	Init  *store.PersistedData
 
 	// Explicit is set by the harness around its own SaveToStore / Shutdown calls. A save that arrives
-	// while it is unset comes from the persist loop: it is captured (blocked until the case ends), so
-	// that no save - and no purge of jobs - happens at a moment the harness did not choose.
-	Explicit int32
-	captured int32
-	release  chan struct{}
+	// while it is unset comes from the persist loop. The first one is awaited by the harness right after
+	// the first change, so that it does not land at a random later step of the history.
+	Explicit  int32
+	captured  int32
+	AutoSaves int32
+	release   chan struct{}
 
 	// Inner, if set, is the real store behind the gate (a JsonDataStore on disk).
 	Inner store.DataStore
@@ -68,10 +69,11 @@ func (s *MemStore) Load() (*store.PersistedData, error) {
 }
 
 func (s *MemStore) Save(d *store.PersistedData) error {
-	if s.release != nil && atomic.LoadInt32(&s.Explicit) == 0 {
+	if atomic.LoadInt32(&s.Explicit) == 0 {
+		// a save of the persist loop: the first one follows the first change at once (the harness waits
+		// for it, see Settle), the next one cannot come earlier than 3 seconds later
 		atomic.StoreInt32(&s.captured, 1)
-		<-s.release
-		return nil
+		atomic.AddInt32(&s.AutoSaves, 1)
 	}
 	s.mu.Lock()
 	s.Last = d
@@ -120,6 +122,7 @@ type Machine struct {
 	ended       bool
 	detail      string // non-deterministic detail for the log of the next failure
 	reloaded    bool
+	forcedJobs  int
 	forced      bool
 }
 
@@ -1066,6 +1069,8 @@ func (m *Machine) checkVerdict(j *JobRec, js *JobSnap) {
 		case js.Canceled:
 		case len(j.FailedTasks) > 0 && js.LastError != "":
 		case allBefore && plainSuccess:
+		case j.CancelPermitted && len(notOK) == 0 && plainSuccess:
+			// (a request that raced a forced shutdown: whether the deadline hit this job is not determined)
 		default:
 			m.fail("C04", "job #%d: cancel acknowledged at seq %d while it ran, final report canceled=%v completed=%v lastError=%q (tasks not run to success: %v)", j.AcceptIdx, j.CancelAckedSeq, js.Canceled, js.Completed, js.LastError, notOK)
 			if j.ForcedSeq != 0 {
